@@ -1,6 +1,8 @@
 """C11  Constraint forces are admissible (DESIGN.md §5.C11).  Shares model, driver, harness and generators with C12."""
+import importlib
 import json
 import math
+import os
 import struct
 
 from gen.enums import E
@@ -31,6 +33,8 @@ META = {
             "deterministic witness on every seed.",
 }
 
+USES_GEN = False   # nothing under lean/MjProof/Gen is read or regenerated: runs against a scratch worktree need no exclusive lock
+
 THEOREMS = [
     "MjProof.C11.friction_force_bounded",
     "MjProof.C11.nonneg_force_nonneg",
@@ -45,6 +49,11 @@ THEOREMS = [
     "MjProof.C11.decodePyramid_normal_eq_sum",
     "MjProof.C11.decodePyramid_normal_nonneg",
     "MjProof.C11.decodePyramid_in_pyramid",
+    "MjProof.C11.fwdConstraint_spec",
+    "MjProof.C11.fwdConstraint_qfrc_eq_JTf",
+    "MjProof.C11.fwdConstraint_history_independent",
+    "MjProof.C11.dualFinish_refines",
+    "MjProof.C11.constraintUpdate_qfrc_eq_JTf",
 ]
 
 ELL = 7
@@ -544,6 +553,17 @@ def scene_oracle(d):
         sc = sum(abs(t) for t in terms) + 1e-300
         if abs(d["qfrc_constraint"][c] - ref) > 1e-9 * max(sc, 1e-6):
             bad.append(("c11:qfrc_constraint", "dof %d: qfrc_constraint = %r, J'f = %r" % (c, d["qfrc_constraint"][c], ref)))
+    # hypothesis `Leaves.WF.outside` of fwdConstraint_spec on the engine's own arrays: a dof outside every island has no
+    # constraint row touching it (so J'f vanishes there, whatever the island solvers leave unwritten)
+    if d.get("nisland", 0) > 0 and nefc:
+        inisl = set(d.get("idof2dof", []))
+        stats["island_dumps"] = stats.get("island_dumps", 0) + 1
+        stats["dofs_outside_islands"] = stats.get("dofs_outside_islands", 0) + nv - len(inisl)
+        if any(not (0 <= k < nv) for k in inisl) or len(inisl) != len(d.get("idof2dof", [])):
+            bad.append(("c11:hyp:idof2dof", "map_idof2dof[0..nidof) is not a set of dofs: %r" % d.get("idof2dof")))
+        for c in range(nv):
+            if c not in inisl and any(J[r * nv + c] != 0 for r in range(nefc)):
+                bad.append(("c11:hyp:dof-outside-islands-has-constraint-column", "dof %d belongs to no island but efc_J has a non-zero entry in its column" % c))
     # mj_contactForce consistency
     for k, c in enumerate(d["contacts"]):
         cf, dim, adr = c["cf"], c["dim"], c["adr"]
@@ -611,6 +631,227 @@ def run_scenes(ctx, drv, impl, nmodels, label="engine scenes"):
     return nfail, updlines
 
 
+# ------------------------------------------------------------------------------------------ call histories on one mjData
+# The property holds after EVERY forward call, whatever was called on the same mjData before: constraints appear and
+# disappear between calls (bodies re-positioned through qpos, eq_active toggled, disable flags flipped, solver options
+# changed) and the persistent outputs (qfrc_constraint is an nv-sized buffer that survives the call; efc_force and the island
+# copies live in the arena, which is recycled, not cleared) must not keep anything of the previous call.
+DSBL_FAMILIES = ("mjDSBL_CONSTRAINT", "mjDSBL_EQUALITY", "mjDSBL_FRICTIONLOSS", "mjDSBL_LIMIT", "mjDSBL_CONTACT")
+HISTORY_KINDS = ("contact_only", "mixed", "mixed")
+
+
+def history_profile(rng):
+    kind = rng.choice(HISTORY_KINDS)
+    if kind == "contact_only":
+        # every constraint is a contact: lifting the bodies off the floor empties the constraint set without any flag
+        return kind, dict(SCENE_PROFILE, nbody=(1, 4), free=1.0, static_body=0.0, limits=0.0, frictionloss=0.0, equalities=0.0,
+                          tendons=0.0, pairs=0.2)
+    return kind, dict(SCENE_PROFILE, nbody=(2, 6))
+
+
+def history_qpos(mdl, rng, mode):
+    """qpos for the three placements: 'load' (free bodies in/near the floor, limited joints out of range), 'lift' (free bodies
+    far above the floor and apart from each other, limited joints inside their range), 'random'"""
+    st = mdl.random_state(rng, scale=0.7)
+    q = list(st["qpos"])
+    nfree = 0
+    for j in mdl.joints:
+        a = j["qposadr"]
+        if j["type"] == "free":
+            if mode == "load":
+                q[a + 2] = rng.uniform(0.02, 0.3)
+            elif mode == "lift":
+                q[a], q[a + 1], q[a + 2] = 4.0 * nfree + rng.uniform(-0.2, 0.2), rng.uniform(-0.2, 0.2), rng.uniform(3.0, 6.0)
+            nfree += 1
+        elif j["type"] in ("hinge", "slide") and j["limited"]:
+            lo, hi = j["range"]
+            if mode == "load":
+                q[a] = rng.choice((lo - rng.uniform(0.01, 0.3), hi + rng.uniform(0.01, 0.3)))
+            elif mode == "lift":
+                q[a] = lo + (hi - lo) * rng.uniform(0.3, 0.7)
+    return q, st
+
+
+def opt_line(rng, info):
+    sol, cone = rng.choice(SOLVERS), rng.choice(CONES)
+    jac = rng.choice(("DENSE", "SPARSE"))
+    iters, tol = rng.choice((50, 200)), rng.choice((1e-8, 1e-12))
+    impratio = rng.choice((1.0, 1.0, 0.5, 3.0, 10.0))
+    noslip = rng.choice((0, 0, 0, 3))
+    info.update({"solver": sol, "cone": cone, "jacobian": jac, "iterations": iters, "tolerance": tol, "impratio": impratio, "noslip": noslip})
+    return "opt %d %d %d %d %r %r %d" % (E("mjSOL_" + sol), E("mjCONE_" + cone), E("mjJAC_" + jac), iters, tol, impratio, noslip)
+
+
+def gen_history(ctx, mi):
+    """one model + a history of calls on ONE mjData.  Returns (kind, script lines, meta aligned with the output lines).
+    meta entries: ("model",), ("ok",), ("fwd", info), ("refwd", info)"""
+    rng = ctx.rng
+    kind, prof = history_profile(rng)
+    mdl = ModelGen(rng, prof).make()
+    script, meta = ["model"] + mdl.lines + ["end"], [("model", None)]
+    base_dis, base_en = mdl.options["disableflags"], mdl.options["enableflags"]
+    neq = len(mdl.equalities)
+    info = {"model": mi, "kind": kind, "adhesion": False, "steps": 0}
+    cur = {"flags": base_dis, "eq": [1] * neq, "call": 0}
+
+    def emit(line, m=("ok", None)):
+        script.append(line)
+        meta.append(m)
+
+    def set_state(mode, with_vel=True):
+        q, st = history_qpos(mdl, rng, mode)
+        for fld in ("qpos", "qvel", "act", "ctrl", "qfrc_applied", "xfrc_applied"):
+            v = q if fld == "qpos" else st[fld]
+            if fld == "qvel" and not with_vel:
+                v = [0.0] * len(v)
+            if v:
+                emit("set %s %s" % (fld, " ".join(repr(float(x)) for x in v)))
+
+    def forward(tag):
+        cur["call"] += 1
+        i = dict(info, transition=tag, call=cur["call"], disableflags=cur["flags"], eq_active=list(cur["eq"]))
+        emit("fwd", ("fwd", i))
+        if rng.random() < 0.5:
+            # the same call again with its observable outputs overwritten by two different finite values
+            for _ in range(2):
+                p = rng.choice((-1.0, 1.0)) * 10.0 ** rng.uniform(-2, 7)
+                emit("refwd " + hexf(p), ("refwd", dict(i, poison=p)))
+
+    emit(opt_line(rng, info))
+    set_state("load")
+    k = rng.choice((0, 1, 3, 10))
+    if k:
+        emit("step %d" % k)
+    forward("load")
+    transitions = []
+    for _ in range(rng.randint(4, 7) if ctx.tier == "quick" else rng.randint(6, 12)):
+        t = rng.choice(("lift", "lift", "load", "random", "flags", "flags", "flags_restore", "eq", "opt", "step", "reset"))
+        if t in ("lift", "load", "random"):
+            set_state(t, with_vel=rng.random() < 0.7)
+        elif t == "flags":
+            mask = base_dis
+            if rng.random() < 0.4:
+                mask |= E("mjDSBL_CONSTRAINT")
+            else:
+                for f in DSBL_FAMILIES[1:]:
+                    if rng.random() < 0.5:
+                        mask |= E(f)
+            if rng.random() < 0.3:
+                mask ^= E("mjDSBL_ISLAND")
+            if rng.random() < 0.2:
+                mask ^= E("mjDSBL_WARMSTART")
+            cur["flags"] = mask
+            emit("flags %d %d" % (mask, base_en))
+        elif t == "flags_restore":
+            cur["flags"] = base_dis
+            emit("flags %d %d" % (base_dis, base_en))
+        elif t == "eq":
+            if not neq:
+                continue
+            cur["eq"] = [rng.randint(0, 1) for _ in range(neq)] if rng.random() < 0.5 else [1 - cur["eq"][0]] * neq
+            emit("eqactive " + " ".join(str(b) for b in cur["eq"]))
+        elif t == "opt":
+            emit(opt_line(rng, info))
+        elif t == "step":
+            emit("step %d" % rng.choice((1, 2, 5)))
+        elif t == "reset":
+            emit("reset")
+            cur["eq"] = [1] * neq
+            set_state(rng.choice(("load", "lift")))
+        transitions.append(t)
+        forward(t)
+    return kind, transitions, script, meta
+
+
+def run_history(ctx, impl, nmodels):
+    """S: the C11 oracle after every call of a history; bitwise agreement of the re-run with overwritten outputs"""
+    perkey = {}
+    nfail, stats = 0, {"models": {}, "transitions": {}, "nefc_change": {"pos->0": 0, "0->pos": 0, "pos->pos": 0, "0->0": 0},
+                       "fwd": 0, "refwd": 0, "refwd_nefc0": 0, "islands_fwd": 0, "rows": {}}
+    script_all, meta_all, spans = [], [], []
+    for mi in range(nmodels):
+        kind, trans, script, meta = gen_history(ctx, mi)
+        stats["models"][kind] = stats["models"].get(kind, 0) + 1
+        for t in trans:
+            stats["transitions"][t] = stats["transitions"].get(t, 0) + 1
+        spans.append((len(script_all), len(meta_all), len(script), len(meta)))
+        script_all += script
+        meta_all += meta
+    rc, outs, err = ctx.run_lines([impl], script_all)
+    if rc != 0 or len(outs) != len(meta_all):
+        ctx.oracle_failure("c11:history-crash", "constraint harness crashed or lost sync on call histories (rc=%s, %d outputs for %d commands)"
+                           % (rc, len(outs), len(meta_all)), {"stderr": err[-500:]})
+        return 1
+
+    def script_upto(span, k):
+        """the model description and every command of this history up to output index k (relative to the span)"""
+        s0, m0, ns, nm = span
+        lines = script_all[s0:s0 + ns]
+        nmodel_lines = lines.index("end") + 1
+        return lines[:nmodel_lines + k]       # output 0 is the model; outputs 1.. are the commands after `end`
+
+    for span in spans:
+        s0, m0, ns, nm = span
+        prev_nefc, last_fwd = None, None
+        for k in range(nm):
+            (kindm, info), o = meta_all[m0 + k], outs[m0 + k]
+            if kindm == "model":
+                if not o.startswith("ok"):
+                    break
+                continue
+            if kindm not in ("fwd", "refwd"):
+                continue
+            if not o.startswith("{"):
+                if o.startswith("error"):
+                    continue       # an engine error raised by the call (caught by the harness): not a C11 matter
+                ctx.oracle_failure("c11:history-parse", "unparsable dump", {"out": o[:300]})
+                continue
+            try:
+                d = json.loads(o)
+            except Exception:
+                ctx.oracle_failure("c11:history-parse", "unparsable dump", {"out": o[:300]})
+                continue
+            bad, st = scene_oracle(d)
+            for kk, v in st.items():
+                stats["rows"][kk] = stats["rows"].get(kk, 0) + v
+            if kindm == "fwd":
+                stats["fwd"] += 1
+                stats["islands_fwd"] += 1 if d.get("nisland", 0) > 0 else 0
+                if prev_nefc is not None:
+                    key = ("pos" if prev_nefc else "0") + "->" + ("pos" if d["nefc"] else "0")
+                    stats["nefc_change"][key] += 1
+                prev_nefc, last_fwd = d["nefc"], d
+                ctx.count(("history", info["model"], info["call"], ctx.seed), nontrivial=True)
+            else:
+                stats["refwd"] += 1
+                stats["refwd_nefc0"] += 1 if d["nefc"] == 0 else 0
+                ctx.count(("history-refwd", info["model"], info["call"], info["poison"], ctx.seed), nontrivial=True)
+                if last_fwd is not None and finite(*last_fwd["force"]) and finite(*last_fwd["qfrc_constraint"]):
+                    for fld, key in (("qfrc_constraint", "c11:history:qfrc_constraint-depends-on-previous-content"),
+                                     ("force", "c11:history:efc_force-depends-on-previous-content")):
+                        if d["nefc"] != last_fwd["nefc"] or d[fld] != last_fwd[fld]:
+                            diff = [i for i, (a, b) in enumerate(zip(d[fld], last_fwd[fld])) if a != b][:8]
+                            bad.append((key, "mj_fwdConstraint re-run on the same inputs with %s pre-filled with %r returns different "
+                                             "values at indices %r: %r vs %r" % (fld, info["poison"], diff, [d[fld][i] for i in diff],
+                                                                                [last_fwd[fld][i] for i in diff])))
+            for key, what in bad:
+                if key == "c11:elliptic-outside-cone" and info["noslip"] > 0:
+                    key, what = QCQP_KEY, "after the noslip pass (solveQCQP on the unregularised block): " + what
+                nfail += 1
+                perkey[key] = perkey.get(key, 0) + 1
+                if perkey[key] <= 2 and len(perkey) <= 12:
+                    ctx.oracle_failure(key, "call %d of a history on one mjData (%s after '%s'): %s" % (info["call"], kindm, info["transition"], what),
+                                       {"history": info, "seed": ctx.seed, "tier": ctx.tier, "nefc": d["nefc"], "ncon": d["ncon"],
+                                        "qfrc_constraint": d["qfrc_constraint"][:40], "force": d["force"][:40],
+                                        "script": script_upto(span, k),
+                                        "replay": "feed the lines of `script` to the c11_constraint harness (ctx.harness('harness/c/c11_constraint.c')); "
+                                                  "the last command prints the failing dump"})
+            if kindm == "fwd" and stats["fwd"] == 5:
+                ctx.sample({"history": info, "nefc": d["nefc"], "ncon": d["ncon"], "qfrc_constraint": d["qfrc_constraint"][:6]})
+    ctx.extra["history_distribution"] = stats
+    return nfail
+
+
 # ------------------------------------------------------------------------------------------ solveQCQP (PGS / noslip friction update)
 QCQP_KEY = "c11:qcqp-outside-ellipsoid"
 # deterministic witness of the early exit of mju_QCQP (delta < 1e-10 with la == 0 => reported inactive although the
@@ -667,6 +908,42 @@ def qcqp_oracle(line, out):
     return None
 
 
+# ------------------------------------------------------------------------------------------ mj_fwdConstraint skeleton tie
+def skeleton_tie(ctx):
+    """T: the statement lists the theorems fwdConstraint_* are about (lean/MjProof/Model/FwdConstraint.lean, printed by
+    drv_c11fwd) == the guarded statements extracted from the C text of the tree (translate/c11_fwdskel.py)"""
+    from . import common
+    os.environ.setdefault("VERIF_REPO", common.REPO)
+    g = importlib.import_module("translate.c11_fwdskel")
+    g.REPO = common.REPO
+    table = g.extract()
+    refused = ["%s: %s" % (f, r["refused"]) for f, r in table.items() if "refused" in r]
+    ctx.oblige("translator c11_fwdskel: %s parsed into guarded statements" % ", ".join(table), "translator", not refused, "; ".join(refused))
+    drv = ctx.driver("drv_c11fwd")
+    if not drv:
+        return
+    names = list(table)
+    execs = ["exec %d %d %s %d 4 0 2" % (nr, isl, sol, ns) for nr in (0, 1) for isl in (0, 1) for sol in ("pgs", "cg", "newton") for ns in (0, 1)]
+    rc, out, err = ctx.run_lines([drv], ["skel " + f for f in names] + execs + ["skel nosuch", "exec 0 0 cg 0 2 5", "exec 2 0 cg 0 2"])
+    if rc != 0 or len(out) != len(names) + len(execs) + 3:
+        ctx.oblige("drv_c11fwd answers", "model-build", False, err[-500:])
+        return
+    for f, o in zip(names, out):
+        ref = o.split(" ;; ") if o != "bad-op" else []
+        src = table[f].get("lines", [])
+        diff = [{"index": i, "model": a, "source": b} for i, (a, b) in
+                enumerate(zip(ref + [None] * (len(src) - len(ref)), src + [None] * (len(ref) - len(src)))) if a != b]
+        ctx.oblige("statement skeleton of %s: Lean program == %s of the tree (%d guarded statements)" % (f, table[f]["file"], len(ref)),
+                   "translator", bool(ref) and not diff, "first differences: " + json.dumps(diff[:6]))
+        ctx.count(("skeleton", f), nontrivial=True)
+    sym = out[len(names):len(names) + len(execs)]
+    ctx.oblige("symbolic runs of the model from stale content: no configuration is stuck or keeps a stale entry (24 configurations)",
+               "model-sanity", all(o.startswith("q ") and "stale" not in o.split(" | ")[0] for o in sym), json.dumps(sym[:4]))
+    ctx.oblige("drv_c11fwd refuses malformed ops", "model-sanity", out[-3:] == ["bad-op"] * 3, json.dumps(out[-3:]))
+    ctx.extra["fwdConstraint_skeleton"] = table["mj_fwdConstraint"].get("lines", [])
+    ctx.sample({"op": execs[8], "model_output": sym[8]})
+
+
 # ------------------------------------------------------------------------------------------ run
 def keyf(line):
     return line if len(line.split()) > 8 else None
@@ -718,6 +995,7 @@ def run(ctx):
                 "Scenes: gen/models.py bodies over a plane with limits, friction loss, equalities, tendons, every solver x cone x "
                 "dense/sparse, optional noslip and adhesion. A case is distinct by its full line / (model,state,solver,cone)")
     ctx.lean_props(THEOREMS)
+    skeleton_tie(ctx)
     drv = ctx.driver("drv_c11")
     impl = ctx.harness("harness/c/c11_constraint.c", "c11_constraint", deps=["harness/mjbuild.h"])
     if not (drv and impl):
@@ -781,7 +1059,9 @@ def run(ctx):
                     ctx.oracle_failure(r[0], r[1], {"line": l, "impl_output": o, "replay": "echo '<line>' | <c11_constraint harness>"})
     ctx.extra["qcqp_lines"] = len(ql)
     ctx.extra["qcqp_failures"] = nq
-    ctx.extra["oracle_failures"] = nfail + nq
+    # ---- call histories on one mjData (constraints appearing / disappearing between calls)
+    nh = run_history(ctx, impl, 600 if thorough else 60)
+    ctx.extra["oracle_failures"] = nfail + nq + nh
 
     def directed(c):
         # a proof / tie obligation broke and the oracle found nothing: search the real function harder
